@@ -1,6 +1,7 @@
 SPECIFICATION Spec
 CONSTANTS
   Universe <- U
+  Hot <- HotFacts
   MaxFacts = 1
   Randomized = FALSE
 INVARIANT Emit
